@@ -4,6 +4,10 @@ SAN = ['-O1', '-g0', '-fsanitize=address,undefined', '-fsanitize=float-cast-over
 FLAVOURS = {
     'san': dict(cxx='g++', flags=SAN, libs=['-lpugixml']),
     'fast': dict(cxx='g++', flags=['-O2', '-g0', '-w'], libs=['-lpugixml']),
+    # objects instrumented by the compiler for ThreadSanitizer but linked against /verif/sched/tsan_rt.cpp instead of libtsan
+    'tsanabi': dict(cxx='g++', flags=['-O1', '-g0', '-fsanitize=thread', '-w'], ldflags=['-O1', '-rdynamic', '-Wl,--wrap=__cxa_guard_acquire,--wrap=__cxa_guard_release,--wrap=__cxa_guard_abort,--wrap=malloc,--wrap=free,--wrap=calloc,--wrap=realloc'], libs=['-lpugixml', '-lpthread']),
+    # the real ThreadSanitizer, free-running (backstop for accesses inside uninstrumented libraries)
+    'tsan': dict(cxx='g++', flags=['-O1', '-g0', '-fsanitize=thread', '-w'], libs=['-lpugixml', '-lpthread']),
 }
 P = dict(name='p256', flavour='san', defs=[])                       # production chunk sizes
 S16 = dict(name='c16', flavour='san', defs=['-DBITSERIALIZER_VERIF_CHUNK_SIZE=16', '-DBITSERIALIZER_VERIF_ENCODED_CHUNK_SIZE=32'])
